@@ -21,13 +21,38 @@ Fixpoint chain_width (ch : dtype_chain) (bits : Z) : option Z :=
 
 (* ---------------------------------------------------------------- simple ADC *)
 
-(* output = (clip(signal, vmin, vmax) - vmin) * (2**bits - 1) / (vmax - vmin), all in binary64 *)
+(* voltage = asarray(signal, dtype=float): a float32/float16 frame is converted exactly to binary64, so
+   the model takes the voltages as binary64 numbers whatever the precision of the frame.
+   output = (clip(voltage, vmin, vmax) - vmin) * max_code / (vmax - vmin), all in binary64 *)
 Definition simple_scaled (bits : Z) (vmin vmax x : b64) : b64 :=
   bdiv (bmul (bsub (bclip x vmin vmax) vmin) (bofZ (2 ^ bits - 1))) (bsub vmax vmin).
 
-(* np.trunc(...).astype(dtype): None = the C cast is undefined for this value *)
+(* max_code = 2**bit_resolution - 1 (a Python integer, exact) *)
+Definition max_code (bits : Z) : Z := 2 ^ bits - 1.
+
+(* top = float(max_code); if top > max_code: top = nextafter(top, 0.0)
+   -- the largest double that does not exceed full scale (Python compares a float with an int exactly;
+   float(int) is correctly rounded, so top is an integer-valued double) *)
+Definition top_float (bits : Z) : b64 :=
+  let t := bofZ (max_code bits) in
+  match btruncZ t with
+  | Some z => if max_code bits <? z then bpred t else t
+  | None => t
+  end.
+
+(* np.minimum(np.trunc(output), top) *)
+Definition simple_clamped (bits : Z) (vmin vmax x : b64) : b64 :=
+  bminimum (btrunc (simple_scaled bits vmin vmax x)) (top_float bits).
+
+(* np.asarray(max_code, dtype=np.uint64).astype(dtype): an integer -> integer cast, which wraps modulo
+   2^w (defined); the theorems show that for the width get_dtype chooses nothing wraps *)
+Definition full_scale_as (w bits : Z) : Z := max_code bits mod 2 ^ w.
+
+(* digitized = minimum(trunc(output), top).astype(dtype); digitized[voltage >= voltage_max] = full scale.
+   None = the float -> unsigned C cast is undefined for this value (NaN, or a value that does not fit) *)
 Definition simple_code (w bits : Z) (vmin vmax x : b64) : option Z :=
-  cast_unsigned w (btruncZ (simple_scaled bits vmin vmax x)).
+  if bge x vmax then Some (full_scale_as w bits)
+  else cast_unsigned w (btruncZ (simple_clamped bits vmin vmax x)).
 
 Definition simple_frame (ch : dtype_chain) (bits : Z) (vmin vmax : b64) (xs : list b64)
   : option (Z * list (option Z)) :=
@@ -38,17 +63,17 @@ Definition simple_frame (ch : dtype_chain) (bits : Z) (vmin vmax : b64) (xs : li
 
 (* ---------------------------------------------------------------- SAR ADC *)
 
-Record sar_state := { acc : b64; rem : b64; ref : b64 }.
+(* The code is accumulated in the unsigned integer output type with Python integer bit weights
+   (exact), the remainder (a binary64 copy of the signal, whatever the precision of the frame) and the
+   reference voltage are binary64. *)
+Record sar_state := { acc : Z; rem : b64; ref : b64 }.
 
-(* `2 ** (adc_bits - (i + 1))` is computed on numpy.int64 (i comes from np.arange), so it wraps:
-   for adc_bits = 64 the first digital value is -2^63, not 2^63. *)
-Definition int64_wrap (z : Z) : Z := (z + 2 ^ 63) mod 2 ^ 64 - 2 ^ 63.
-Definition digital_value (bits i : Z) : Z := int64_wrap (2 ^ (bits - (i + 1))).
+Definition digital_value (bits i : Z) : Z := 2 ^ (bits - (i + 1)).
 
 (* one pass of the loop body for bit index i (0 = most significant) *)
 Definition sar_step (bits : Z) (s : sar_state) (i : Z) : sar_state :=
   let hit := bge (rem s) (ref s) in
-  {| acc := if hit then badd (acc s) (bofZ (digital_value bits i)) else acc s;
+  {| acc := if hit then acc s + digital_value bits i else acc s;
      rem := if hit then bsub (rem s) (ref s) else rem s;
      ref := bdiv (ref s) (bofZ 2) |}.
 
@@ -58,12 +83,13 @@ Fixpoint sar_loop (bits : Z) (n : nat) (i : Z) (s : sar_state) : sar_state :=
   | S n' => sar_loop bits n' (i + 1) (sar_step bits s i)
   end.
 
-Definition sar_acc (bits : Z) (vmax x : b64) : b64 :=
+Definition sar_acc (bits : Z) (vmax x : b64) : Z :=
   acc (sar_loop bits (Z.to_nat bits) 0
-         {| acc := pzero; rem := x; ref := bdiv vmax (bofZ 2) |}).
+         {| acc := 0; rem := x; ref := bdiv vmax (bofZ 2) |}).
 
+(* additions in an unsigned type of w bits wrap modulo 2^w; the theorems show no wrap happens *)
 Definition sar_code (w bits : Z) (vmax x : b64) : option Z :=
-  cast_unsigned w (btruncZ (sar_acc bits vmax x)).
+  cast_unsigned w (Some (sar_acc bits vmax x)).
 
 Definition sar_frame (ch : dtype_chain) (bits : Z) (vmax : b64) (xs : list b64)
   : option (Z * list (option Z)) :=
@@ -72,13 +98,13 @@ Definition sar_frame (ch : dtype_chain) (bits : Z) (vmax : b64) (xs : list b64)
   | Some w => Some (w, map (sar_code w bits vmax) xs)
   end.
 
-(* The noisy variant with all strengths and noises 0:  ref += 0.0 ; mask ; acc += dv*mask ;
+(* The noisy variant with all strengths and noises 0:  ref += 0.0 ; mask ; acc += dv*mask (integers) ;
    rem -= ref*mask ; ref /= 2.  Written out as the code does it (multiplications by the 0/1 mask). *)
 Definition sar0_step (bits : Z) (s : sar_state) (i : Z) : sar_state :=
   let r := badd (ref s) pzero in
   let hit := bge (rem s) r in
   let mask := if hit then bofZ 1 else pzero in
-  {| acc := badd (acc s) (bmul (bofZ (digital_value bits i)) mask);
+  {| acc := acc s + digital_value bits i * (if hit then 1 else 0);
      rem := bsub (rem s) (bmul r mask);
      ref := bdiv r (bofZ 2) |}.
 
@@ -89,8 +115,8 @@ Fixpoint sar0_loop (bits : Z) (n : nat) (i : Z) (s : sar_state) : sar_state :=
   end.
 
 Definition sar0_code (w bits : Z) (vmax x : b64) : option Z :=
-  cast_unsigned w (btruncZ (acc (sar0_loop bits (Z.to_nat bits) 0
-         {| acc := pzero; rem := x; ref := bdiv vmax (bofZ 2) |}))).
+  cast_unsigned w (Some (acc (sar0_loop bits (Z.to_nat bits) 0
+         {| acc := 0; rem := x; ref := bdiv vmax (bofZ 2) |}))).
 
 Definition sar0_frame (ch : dtype_chain) (bits : Z) (vmax : b64) (xs : list b64)
   : option (Z * list (option Z)) :=
@@ -98,6 +124,168 @@ Definition sar0_frame (ch : dtype_chain) (bits : Z) (vmax : b64) (xs : list b64)
   | None => None
   | Some w => Some (w, map (sar0_code w bits vmax) xs)
   end.
+
+(* The noisy variant in general: the perturbation np.random.normal(strengths[i], noises[i]) drawn for bit i
+   is a parameter p_i (one value per bit; the check makes the draw the same for every pixel):
+   ref += p_i ; mask ; acc += dv*mask ; rem -= ref*mask ; ref /= 2.   sar0 is the case p_i = +0.0. *)
+Definition sarp_step (bits : Z) (s : sar_state) (i : Z) (p : b64) : sar_state :=
+  let r := badd (ref s) p in
+  let hit := bge (rem s) r in
+  let mask := if hit then bofZ 1 else pzero in
+  {| acc := acc s + digital_value bits i * (if hit then 1 else 0);
+     rem := bsub (rem s) (bmul r mask);
+     ref := bdiv r (bofZ 2) |}.
+
+Fixpoint sarp_loop (bits : Z) (ps : list b64) (i : Z) (s : sar_state) : sar_state :=
+  match ps with
+  | [] => s
+  | p :: t => sarp_loop bits t (i + 1) (sarp_step bits s i p)
+  end.
+
+(* the loop runs over range(adc_bits) and indexes strengths[i], noises[i]: fewer than adc_bits values is an
+   IndexError (None); surplus values are never read *)
+Definition sarp_acc (bits : Z) (vmax : b64) (ps : list b64) (x : b64) : Z :=
+  acc (sarp_loop bits (firstn (Z.to_nat bits) ps) 0 {| acc := 0; rem := x; ref := bdiv vmax (bofZ 2) |}).
+
+Definition sarp_code (w bits : Z) (vmax : b64) (ps : list b64) (x : b64) : option Z :=
+  cast_unsigned w (Some (sarp_acc bits vmax ps x)).
+
+Definition sarp_frame (ch : dtype_chain) (bits : Z) (vmax : b64) (ps : list b64) (xs : list b64)
+  : option (Z * list (option Z)) :=
+  match chain_width ch bits with
+  | None => None
+  | Some w => if (Z.of_nat (length ps) <? bits) then None else Some (w, map (sarp_code w bits vmax ps) xs)
+  end.
+
+(* ---------------------------------------------------------------- the detector-level models
+   simple_adc / sar_adc / sar_adc_with_noise: which detector attribute feeds which argument of the
+   converter, how the output type is chosen, and that detector.image.array receives the converter's
+   result.  The wiring records are REGENERATED from the source (Gen_C16); the functions below give them
+   their meaning. *)
+
+Inductive src :=
+  | FromBits        (* detector.characteristics.adc_bit_resolution *)
+  | FromRangeLo     (* first component of detector.characteristics.adc_voltage_range *)
+  | FromRangeHi     (* second component *)
+  | FromSignal      (* detector.signal.array *)
+  | FromRows        (* detector.geometry.row *)
+  | FromCols        (* detector.geometry.col *)
+  | FromStrengths   (* the model argument `strengths` as a float array *)
+  | FromNoises      (* the model argument `noises` as a float array *)
+  | FromOther.      (* anything else *)
+
+Inductive dtype_rule :=
+  | DtGetDtypeOf (s : src)               (* get_dtype(s) *)
+  | DtOverrideElseGetDtypeOf (s : src)   (* np.dtype(data_type) if data_type else get_dtype(s) *)
+  | DtOther.
+
+Record simple_wiring := {
+  sw_signal : src; sw_bits : src; sw_vmin : src; sw_vmax : src; sw_dtype : dtype_rule;
+  sw_store_image : bool    (* detector.image.array = the converter's result, unchanged, last statement *)
+}.
+Record sar_wiring := {
+  rw_signal : src; rw_rows : src; rw_cols : src; rw_vmin : src; rw_vmax : src; rw_bits : src;
+  rw_store_image : bool
+}.
+Record sar0_wiring := {
+  nw_signal : src; nw_rows : src; nw_cols : src; nw_strengths : src; nw_noises : src;
+  nw_vmax : src; nw_bits : src;
+  nw_guard_strengths : bool;  (* len(strengths) != adc_bit_resolution -> ValueError, before the call *)
+  nw_guard_noises : bool;
+  nw_store_image : bool
+}.
+
+(* a detector as far as the converters are concerned: one row of voltages *)
+Record adc_detector := {
+  d_bits : Z; d_lo : b64; d_hi : b64; d_signal : list b64; d_rows : Z; d_cols : Z
+}.
+
+Definition src_eqb (a b : src) : bool :=
+  match a, b with
+  | FromBits, FromBits | FromRangeLo, FromRangeLo | FromRangeHi, FromRangeHi | FromSignal, FromSignal
+  | FromRows, FromRows | FromCols, FromCols | FromStrengths, FromStrengths | FromNoises, FromNoises => true
+  | _, _ => false
+  end.
+
+Definition pickZ (s : src) (d : adc_detector) : option Z :=
+  match s with FromBits => Some (d_bits d) | FromRows => Some (d_rows d) | FromCols => Some (d_cols d) | _ => None end.
+Definition pickF (s : src) (d : adc_detector) : option b64 :=
+  match s with FromRangeLo => Some (d_lo d) | FromRangeHi => Some (d_hi d) | _ => None end.
+Definition pickL (s : src) (d : adc_detector) : option (list b64) :=
+  match s with FromSignal => Some (d_signal d) | _ => None end.
+
+(* the output width: data_type (given as its width in bits) overrides get_dtype *)
+Definition pick_width (ch : dtype_chain) (r : dtype_rule) (d : adc_detector) (data_type : option Z) : option Z :=
+  match r with
+  | DtGetDtypeOf s => match pickZ s d with Some b => chain_width ch b | None => None end
+  | DtOverrideElseGetDtypeOf s =>
+      match data_type with
+      | Some w => Some w
+      | None => match pickZ s d with Some b => chain_width ch b | None => None end
+      end
+  | DtOther => None
+  end.
+
+(* what detector.image.array holds after the model ran: None = no image / an exception *)
+Definition run_simple (ch : dtype_chain) (w : simple_wiring) (d : adc_detector) (data_type : option Z)
+  : option (Z * list (option Z)) :=
+  match pickZ (sw_bits w) d, pickF (sw_vmin w) d, pickF (sw_vmax w) d, pickL (sw_signal w) d with
+  | Some b, Some lo, Some hi, Some xs =>
+      match pick_width ch (sw_dtype w) d data_type with
+      | Some wd => if sw_store_image w then Some (wd, map (simple_code wd b lo hi) xs) else None
+      | None => None
+      end
+  | _, _, _, _ => None
+  end.
+
+(* the shape arguments must be the detector's own (np.zeros((num_rows, num_cols)) is indexed with a mask
+   of the signal's shape) *)
+Definition run_sar (ch : dtype_chain) (w : sar_wiring) (d : adc_detector) : option (Z * list (option Z)) :=
+  match pickZ (rw_bits w) d, pickF (rw_vmax w) d, pickL (rw_signal w) d, pickZ (rw_rows w) d, pickZ (rw_cols w) d with
+  | Some b, Some hi, Some xs, Some r, Some c =>
+      if (r =? d_rows d) && (c =? d_cols d) && rw_store_image w then sar_frame ch b hi xs else None
+  | _, _, _, _, _ => None
+  end.
+
+(* strengths / noises all zero, of length n *)
+Definition run_sar0 (ch : dtype_chain) (w : sar0_wiring) (d : adc_detector) (n_strengths n_noises : Z)
+  : option (Z * list (option Z)) :=
+  if (nw_guard_strengths w && negb (n_strengths =? d_bits d)) || (nw_guard_noises w && negb (n_noises =? d_bits d))
+  then None    (* ValueError *)
+  else
+  match pickZ (nw_bits w) d, pickF (nw_vmax w) d, pickL (nw_signal w) d, pickZ (nw_rows w) d, pickZ (nw_cols w) d with
+  | Some b, Some hi, Some xs, Some r, Some c =>
+      if (r =? d_rows d) && (c =? d_cols d) && nw_store_image w
+         && src_eqb (nw_strengths w) FromStrengths && src_eqb (nw_noises w) FromNoises
+      then sar0_frame ch b hi xs else None
+  | _, _, _, _, _ => None
+  end.
+
+(* the noisy variant with given per-bit perturbations (strengths / noises tuples of adc_bit_resolution elements) *)
+Definition run_sarp (ch : dtype_chain) (w : sar0_wiring) (d : adc_detector) (ps : list b64)
+  : option (Z * list (option Z)) :=
+  match pickZ (nw_bits w) d, pickF (nw_vmax w) d, pickL (nw_signal w) d, pickZ (nw_rows w) d, pickZ (nw_cols w) d with
+  | Some b, Some hi, Some xs, Some r, Some c =>
+      if (r =? d_rows d) && (c =? d_cols d) && nw_store_image w
+         && src_eqb (nw_strengths w) FromStrengths && src_eqb (nw_noises w) FromNoises
+      then sarp_frame ch b hi ps xs else None
+  | _, _, _, _, _ => None
+  end.
+
+(* the wiring the property text describes *)
+Definition simple_wiring_ok (w : simple_wiring) : bool :=
+  src_eqb (sw_signal w) FromSignal && src_eqb (sw_bits w) FromBits && src_eqb (sw_vmin w) FromRangeLo
+  && src_eqb (sw_vmax w) FromRangeHi
+  && match sw_dtype w with DtGetDtypeOf FromBits | DtOverrideElseGetDtypeOf FromBits => true | _ => false end
+  && sw_store_image w.
+Definition sar_wiring_ok (w : sar_wiring) : bool :=
+  src_eqb (rw_signal w) FromSignal && src_eqb (rw_rows w) FromRows && src_eqb (rw_cols w) FromCols
+  && src_eqb (rw_vmax w) FromRangeHi && src_eqb (rw_bits w) FromBits && rw_store_image w.
+Definition sar0_wiring_ok (w : sar0_wiring) : bool :=
+  src_eqb (nw_signal w) FromSignal && src_eqb (nw_rows w) FromRows && src_eqb (nw_cols w) FromCols
+  && src_eqb (nw_strengths w) FromStrengths && src_eqb (nw_noises w) FromNoises
+  && src_eqb (nw_vmax w) FromRangeHi && src_eqb (nw_bits w) FromBits
+  && nw_guard_strengths w && nw_guard_noises w && nw_store_image w.
 
 (* ---------------------------------------------------------------- the property's right-hand side
    (the specification the implementation's output is judged against; also the search oracle) *)
@@ -107,6 +295,15 @@ Fixpoint sortedZ (l : list Z) : bool :=
   | a :: ((b :: _) as t) => (a <=? b) && sortedZ t
   | _ => true
   end.
+
+(* the frames the specification speaks about: voltages given in non-decreasing order, no NaN *)
+Fixpoint sortedB (l : list b64) : bool :=
+  match l with
+  | a :: ((b :: _) as t) => ble a b && sortedB t
+  | _ => true
+  end.
+
+Definition no_nan (l : list b64) : bool := forallb (fun x => negb (bis_nan x)) l.
 
 Definition in_code_range (bits c : Z) : bool := (0 <=? c) && (c <=? 2 ^ bits - 1).
 
@@ -125,6 +322,10 @@ Definition simple_spec (bits : Z) (vmin vmax : b64) (xs : list b64) (w : Z) (cs 
 Definition sar_spec (bits : Z) (xs : list b64) (w : Z) (cs : list Z) : bool :=
   (2 ^ bits - 1 <? 2 ^ w) && (Nat.eqb (length xs) (length cs))
   && forallb (in_code_range bits) cs && sortedZ cs.
+
+(* with arbitrary perturbations only the bounds and the type width are demanded *)
+Definition noisy_spec (bits : Z) (xs : list b64) (w : Z) (cs : list Z) : bool :=
+  (2 ^ bits - 1 <? 2 ^ w) && (Nat.eqb (length xs) (length cs)) && forallb (in_code_range bits) cs.
 
 (* ---------------------------------------------------------------- comparison helpers for case files *)
 
@@ -152,15 +353,21 @@ Fixpoint indices_where {A} (f : A -> bool) (l : list A) (i : Z) : list Z :=
   | a :: t => if f a then i :: indices_where f t (i + 1) else indices_where f t (i + 1)
   end.
 
-Inductive adc_kind := Simple | Sar | Sar0.
+Inductive adc_kind := Simple | Sar | Sar0 | Sarp.
 
 Record adc_case := {
   kind : adc_kind; bits : Z; vmin : b64; vmax : b64; xs : list b64;   (* xs sorted ascending *)
   observed : option (Z * list Z);
   twin : option (list Z);  (* Sar0 only: what the noise-free converter returned on the same frame *)
-  exact : bool             (* true: float64 signal frame, the binary64 model applies and is compared;
-                              false: float32/float16 frame, the output is only judged against the spec *)
+  via_model : bool;        (* true: through the detector-level model (simple_adc / sar_adc / sar_adc_with_noise)
+                              on a 1 x n detector; false: the converter function called directly *)
+  data_type : option Z;    (* Simple only: width of an explicit output type (data_type= / dtype=) *)
+  n_strengths : Z; n_noises : Z;  (* Sar0 through the model: lengths of the two argument tuples *)
+  perturb : list b64       (* Sarp only: the perturbation of each bit, strengths[i] + noises[i] * z_i *)
 }.
+(* All three converters work on a binary64 copy of the signal frame (np.asarray / np.array with
+   dtype=float), so a float32 / float16 frame is handed to the model as the binary64 numbers it converts
+   to exactly: the model applies to every frame precision and is always compared. *)
 
 Fixpoint listZ_eqb (a b : list Z) : bool :=
   match a, b with
@@ -169,18 +376,44 @@ Fixpoint listZ_eqb (a b : list Z) : bool :=
   | _, _ => false
   end.
 
-Definition model_of (ch : dtype_chain) (c : adc_case) : option (Z * list (option Z)) :=
-  match kind c with
-  | Simple => simple_frame ch (bits c) (vmin c) (vmax c) (xs c)
-  | Sar => sar_frame ch (bits c) (vmax c) (xs c)
-  | Sar0 => sar0_frame ch (bits c) (vmax c) (xs c)
-  end.
+Definition det_of (c : adc_case) : adc_detector :=
+  {| d_bits := bits c; d_lo := vmin c; d_hi := vmax c; d_signal := xs c;
+     d_rows := 1; d_cols := Z.of_nat (length (xs c)) |}.
 
-Definition case_mismatch (ch : dtype_chain) (c : adc_case) : bool :=
-  if exact c then negb (frame_agree (model_of ch c) (observed c)) else false.
+Definition model_of (ch : dtype_chain) (sw : simple_wiring) (rw : sar_wiring) (nw : sar0_wiring)
+  (c : adc_case) : option (Z * list (option Z)) :=
+  if via_model c then
+    match kind c with
+    | Simple => run_simple ch sw (det_of c) (data_type c)
+    | Sar => run_sar ch rw (det_of c)
+    | Sar0 => run_sar0 ch nw (det_of c) (n_strengths c) (n_noises c)
+    | Sarp => run_sarp ch nw (det_of c) (perturb c)
+    end
+  else
+    match kind c with
+    | Simple => match data_type c with
+                | Some wd => Some (wd, map (simple_code wd (bits c) (vmin c) (vmax c)) (xs c))
+                | None => simple_frame ch (bits c) (vmin c) (vmax c) (xs c)
+                end
+    | Sar => sar_frame ch (bits c) (vmax c) (xs c)
+    | Sar0 => sar0_frame ch (bits c) (vmax c) (xs c)
+    | Sarp => sarp_frame ch (bits c) (vmax c) (perturb c) (xs c)
+    end.
+
+Definition case_mismatch ch sw rw nw (c : adc_case) : bool :=
+  negb (frame_agree (model_of ch sw rw nw c) (observed c)).
+
+(* a noisy-variant call whose tuples do not have adc_bit_resolution elements is refused (ValueError): that
+   is not one of the allowed settings, the specification says nothing about it *)
+Definition allowed_setting (c : adc_case) : bool :=
+  match kind c with
+  | Sar0 => if via_model c then (n_strengths c =? bits c) && (n_noises c =? bits c) else true
+  | _ => true
+  end.
 
 (* the allowed settings: 4 <= bits <= 64 and vmin < vmax; on them the implementation must not raise *)
 Definition case_violates (c : adc_case) : bool :=
+  if negb (allowed_setting c) then false else
   match observed c with
   | None => true
   | Some (w, cs) =>
@@ -189,8 +422,9 @@ Definition case_violates (c : adc_case) : bool :=
             | Sar => sar_spec (bits c) (xs c) w cs
             | Sar0 => sar_spec (bits c) (xs c) w cs
                       && match twin c with Some ts => listZ_eqb ts cs | None => false end
+            | Sarp => noisy_spec (bits c) (xs c) w cs
             end)
   end.
 
-Definition mismatches ch (cs : list adc_case) : list Z := indices_where (case_mismatch ch) cs 0.
+Definition mismatches ch sw rw nw (cs : list adc_case) : list Z := indices_where (case_mismatch ch sw rw nw) cs 0.
 Definition violations (cs : list adc_case) : list Z := indices_where case_violates cs 0.
